@@ -22,7 +22,7 @@ RULE = ('random files (1-5 dimensions incl. length-1 and unlimited, 1-6 variable
         'slice_dim (dim,i / dim,a,b / dim,a,b,stride incl. None, negative and reversed ranges) against the same model; IOAPI files '
         'through ioapi_base.sliceDimensions (windows, index list next to an integer, uneven index lists along TSTEP) against '
         'numpy.take on the source arrays, TFLAG included; '
-        'non-trivial = some variable has a selected dimension and another does not, or lists are zipped')
+        'non-trivial = some variable has a selected dimension and another does not, or lists are zipped; masked variables without a fill attribute and with fill value 0; IOAPI variables with descriptive attributes (every attribute compared after slicing)')
 ASSUMPTIONS = ['numpy basic/advanced indexing and masked-array assignment behave as the orthogonal model says '
                '(exercised, not proved)']
 MIN_NONTRIVIAL = {'quick': 100, 'thorough': 1000}
